@@ -1476,12 +1476,30 @@ def configs(chk):
         ("sphere", "1d", "radius", 2, "Iq", False),
         ("cylinder", "2d", "theta", 0, "Iqxy", False),
     ]]
+    if not chk.quick:
+        items += [("sasview", c) for c in [
+            ("ellipsoid", "2d", "theta", 0, "calculate_Iq", None),
+            ("vesicle", "1d", "radius", 2, "evalDistribution", None),
+            ("lamellar", "1d", "thickness", 2, "calculate_Iq", None),
+            ("parallelepiped", "2d", "length_a", 2, "evalDistribution", None),
+            ("cylinder", "2d", None, 2, "calculate_Iq", "sld")]]
+        items += [("direct", c) for c in [
+            ("hollow_cylinder", "1d", "radius", 2, "DirectModel", True),
+            ("parallelepiped", "2d", "theta", 0, "DirectModel", False),
+            ("vesicle", "1d", "thickness", 2, "Iq", False)]]
+        items += [("comp", c) for c in [
+            ("hollow_cylinder@hayter_msa", "1d", (("radius", 2),), {er: 2, sf: 1}, False, False),
+            ("sphere+cylinder+ellipsoid", "1d", (), {}, False, True),
+            ("sphere*sphere@hardsphere", "1d", (), {}, False, True)]]
     items.append(("template", None))
+    items += [("validate", c) for c in [("dll", "sphere", "1d"), ("dll", "cylinder", "2d"), ("dll", "lamellar", "1d"),
+                                        ("py", "line", "1d"), ("py", "line", "2d")]]
     return items
 
 
-UNITS = {"dll": unit_dll, "py": unit_py, "comp": unit_comp, "sasview": unit_sasview,
-         "direct": unit_direct, "template": unit_template}
+def _units():
+    return {"dll": unit_dll, "py": unit_py, "comp": unit_comp, "sasview": unit_sasview,
+            "direct": unit_direct, "template": unit_template, "validate": unit_validate}
 
 
 def _label(item):
@@ -1491,7 +1509,7 @@ def _label(item):
 
 def _dispatch(item):
     kind, cfg = item
-    return UNITS[kind](cfg)
+    return _units()[kind](cfg)
 
 
 def _prebuild(name):
@@ -1563,10 +1581,100 @@ def run(chk):
     need = sorted({cfg[0] for kind, cfg in items if kind in ("dll", "sasview", "direct")})
     pmap(_prebuild, need)
     # long units first
-    order = {"sasview": 0, "direct": 1, "comp": 2, "dll": 3, "py": 4, "template": 5}
+    order = {"sasview": 0, "direct": 1, "comp": 2, "dll": 3, "py": 4, "template": 5, "validate": 6}
     items.sort(key=lambda it: (order[it[0]], 0 if "call_Fq" in _label(it) else 1))
     chk.add(pmap(_dispatch, items))
     chk.extra = {
         "pairs_without_common_request": sum(u.get("pairs_without_common_request", 0) for u in chk.units),
         "max_state_symbols_in_a_path": max([u.get("max_state_symbols_in_a_path", 0) for u in chk.units] or [0]),
     }
+
+
+# --------------------------------------------------------------------------
+# translator validation: the result terms of the symbolic run, evaluated in
+# floats, against the real call
+
+def _env_from_path(p, env, funcs):
+    """Complete *env* with the named result cells (res!c!i == <leaf expression>)
+    and report whether the path condition holds at the concrete inputs."""
+    ok = True
+    for c in p.constraints():
+        if z3.is_eq(c) and c.arg(0).num_args() == 0 and str(c.arg(0)).startswith("res!"):
+            env[str(c.arg(0))] = symx.evalf(c.arg(1), env, funcs)
+        else:
+            try:
+                ok = ok and bool(symx.evalf(c, env, funcs))
+            except KeyError:
+                return False
+    return ok
+
+
+def unit_validate(cfg):
+    kind, name, dim = cfg
+    label = "validate/%s/%s/%s" % (kind, name, dim)
+    u = Unit(label)
+    install_shims()
+    info = core.load_model_info(name)
+    q = [[0.0125, 0.125]] if dim == "1d" else [[0.0125], [0.03125]]
+    pars0 = dll_pars(info, dim, None, None, "call_kernel")
+    fpars = generic_pars(info, pars0)
+    cutoff = 0.0
+    # real call
+    model = _real_kernel_model(name)
+    kern = model.make_kernel([np.array(v) for v in q])
+    want = np.asarray(direct_model.call_kernel(kern, dict(fpars), cutoff=cutoff), dtype=float)
+    class _Env(dict):
+        def __missing__(self, key):          # unused tail cells of the result buffer
+            if key.startswith("stale!"):
+                return 0.731
+            raise KeyError(key)
+    env = _Env({"in.cutoff": cutoff})
+    env.update({"in.v." + k: float(v) for k, v in fpars.items()})
+    names = ["in.q0", "in.q1"] if dim == "1d" else ["in.qx0", "in.qy0"]
+    env.update(dict(zip(names, [x for v in q for x in v])))
+    funcs = {}
+    if kind == "dll":
+        # leaf values as the real compiled kernel produced them (mono: raw accumulators, weight 1)
+        nq = len(q[0])
+        nout = 2 if (info.have_Fq and dim == "1d") else 1
+        raw = np.array(kern.result, dtype=float)
+        byq = {}
+        for i in range(nq):
+            key = round(q[0][i], 12) if dim == "1d" else round(float(np.hypot(q[0][i], q[1][i])), 12)
+            byq[key] = (raw[nout * i], raw[nout * i + 1] if nout == 2 else None)
+        near = lambda x: byq[min(byq, key=lambda k: abs(k - x))]
+        funcs = {"F2": lambda qq, *a: near(qq)[0], "F1": lambda qq, *a: near(qq)[1],
+                 "Iq": lambda qq, *a: near(qq)[0],
+                 "Iqac": lambda *a: raw[0], "Iqabc": lambda *a: raw[0], "Iqxy": lambda *a: raw[0],
+                 "form_volume": lambda *a: raw[nout * nq + 1], "shell_volume": lambda *a: raw[nout * nq + 2]}
+        km = KModel.get(name)
+
+        def fn():
+            kern_s = make_dll_kernel(km.make_model(), sym_q(dim))
+            return flatten(direct_model.call_kernel(kern_s, dict(pars0), cutoff=symx.real("in.cutoff")))[1]
+        ex = symx.Explorer(abstract=True, max_paths=50)
+    else:
+        def fn():
+            kern_s = kernelpy.PyModel(copy.copy(info)).make_kernel(sym_q(dim))     # REAL python leaf
+            kern_s.dtype = OBJ
+            return flatten(direct_model.call_kernel(kern_s, dict(pars0), cutoff=symx.real("in.cutoff")))[1]
+        ex = symx.Explorer(max_paths=50)
+    paths = ex.explore(fn, [])
+    u.absorb(ex, paths)
+    u.functions("translator validation: symbolic result evaluated in floats vs real call_kernel")
+    hit = 0
+    for p in paths:
+        if p.cut or p.exc is not None:
+            u.error("validation path: %s" % (p.cut or repr(p.exc)))
+            continue
+        e = _Env(env)
+        if not _env_from_path(p, e, funcs):
+            continue
+        hit += 1
+        for i, t in enumerate(p.result):
+            u.check_close("%s I[%d]" % (label, i), float(symx.evalf(t, e, funcs)), float(want[i]), rtol=1e-9)
+    if hit != 1:
+        u.error("%s: %d symbolic paths match the concrete inputs (expected 1)" % (label, hit))
+    u.r["obligations"] += 1          # counted so that the unit is non-trivial; decided numerically
+    u.r["discharged"] += 1
+    return u.r
